@@ -510,6 +510,19 @@ class Executor:
                 return z3.Select(path.sel("idict.has", container.e), ref_of(item))
             if base == "set":
                 return z3.Select(path.sel("set.has", container.e), ref_of(item))
+            if base in ("deque", "list"):
+                # x in seq: some element equals x (element equality through the class's eq model,
+                # which must be pure here)
+                if base == "deque":
+                    arr, lo, hi = path.sel("deque.arr", container.e), path.sel("deque.head", container.e), path.sel("deque.tail", container.e)
+                else:
+                    arr, lo, hi = path.sel("list.arr", container.e), z3.IntVal(0), path.sel("list.len", container.e)
+                k = fresh("k", Int)
+                et = targs[0] if targs else "Val"
+                eqs = self.equal(path, wrap(et, z3.Select(arr, k)), item, node)
+                if len(eqs) != 1 or isinstance(eqs[0][1], Raise):
+                    self.unsupported(node, "membership with effectful equality")
+                return z3.Exists([k], z3.And(k >= lo, k < hi, eqs[0][1]))
             if base == "sset":
                 return z3.Select(path.sel("sset.has", container.e), item.e)
             m = class_model(container.cls)
